@@ -54,7 +54,23 @@ PRE = re.compile(r'(<pre>.*?</pre>)', re.S)
 WS = re.compile(r'\s+')
 
 
+def _clean():
+    """Start every call from the library's initial global state.  The pinned tree leaks parser state
+    between calls (collected code-span matches, the setext switch, the root node: property C11);
+    without this the verdict of a case would depend on the cases a worker happened to run before."""
+    from mistletoe import block_token, span_token, core_tokens, token
+    if hasattr(core_tokens, '_code_matches'):
+        core_tokens._code_matches = []
+    if hasattr(block_token.Paragraph, 'parse_setext'):
+        block_token.Paragraph.parse_setext = True
+    if hasattr(token, '_root_node'):
+        token._root_node = None
+    block_token.reset_tokens()
+    span_token.reset_tokens()
+
+
 def html_of(text):
+    _clean()
     with HtmlRenderer() as h:
         d = Document(text)
         out = h.render(d)
@@ -62,6 +78,7 @@ def html_of(text):
 
 
 def md_of(text, L):
+    _clean()
     with MarkdownRenderer(max_line_length=L) as r:
         return r.render(Document(text))
 
@@ -165,6 +182,8 @@ def check(ref, L):
 
 
 FENCE = re.compile(r'`{3,}[^`]*$')
+ZERO_MARKER = re.compile(r'[> ]*[.)](?: |$)')
+BROKEN_AUTOLINK = re.compile(r'<[A-Za-z][A-Za-z0-9+.-]{1,31}:[^ <>\n]*\n[^<>]*>')
 
 
 def classify(ref, L, contract, observed, out):
@@ -177,6 +196,10 @@ def classify(ref, L, contract, observed, out):
         sum(1 for l in ref.none.split('\n') if FENCE.match(rest_of(l)))
     if fence and contract != 'c10c':
         return 'code-span-delimiter-at-line-start-becomes-fence'
+    if out and BROKEN_AUTOLINK.search(out) and not BROKEN_AUTOLINK.search(ref.none):
+        return 'angle-bracket-text-broken-across-lines-becomes-autolink'
+    if out and any(ZERO_MARKER.match(l) for l in lines) and not any(ZERO_MARKER.match(l) for l in ref.none.split('\n')):
+        return 'zero-digit-list-marker-at-line-start'
     if contract == 'c10c':
         # wrapping is switched off where the child budget is exactly 0: the same lines are
         # wrapped again with L + 1 (a budget of 1)
@@ -310,6 +333,16 @@ def work(chunk):
     return res
 
 
+def select(fl, n):
+    """the 3 smallest inputs of every (contract, class), then the globally smallest, n in all"""
+    per, first, rest = {}, [], []
+    for f in fl:
+        c = (f['contract'], f['class'])
+        per[c] = per.get(c, 0) + 1
+        (first if per[c] <= 3 else rest).append(f)
+    return sorted((first + rest)[:n], key=ORDER)
+
+
 def run(tier, seed, workers):
     t = Timer()
     quick = tier == 'quick'
@@ -323,7 +356,7 @@ def run(tier, seed, workers):
         stacks += [s + (i,) for s in stacks if len(s) == d for i in range(len(mdgen.STACK_PREFIXES))]
     cases += [('stack', s, stack_ls) for s in stacks]
     # generated documents: small set x (all L | a seeded third), big set x sampled L
-    n_small, n_big, k_big = (260, 1200, 6) if quick else (4000, 40000, 8)
+    n_small, n_big, k_big = (500, 2500, 6) if quick else (2500, 25000, 8)
     full = full_ls(tier, seed)
     for i in range(n_small):
         cases.append(('reflow' if i % 2 == 0 else 'reflowfree', base + i, full))
@@ -384,7 +417,7 @@ def run(tier, seed, workers):
         'samples': samples[:6],
         'failures_total': out['failing_cases'],
         'class_counts': classes,
-        'failures': fl[:MAX_FAILURES],
+        'failures': select(fl, MAX_FAILURES),
         'elapsed_s': round(t.s(), 1),
     })
     return out
